@@ -201,6 +201,73 @@ func (c *Ctx) packageState() {
 		}
 	}
 	run.Count("package_variables_in_instance_packages", n)
+	// a window into a slice that other objects are carved from, too: x[a:b] (without a capacity
+	// bound) handed to a constructor as its variadic list, or stored in a field. The object's list
+	// then shares its backing array - and its spare capacity - with its neighbours: an append to
+	// one instance's exported list overwrites an element of the next instance's.
+	nw := 0
+	for _, pk := range c.P.Pkgs {
+		rel := load.RelPkg(pk.PkgPath)
+		isInd := rel == "trend" || rel == "momentum" || rel == "volatility" || rel == "volume"
+		if !isInd && !strings.HasPrefix(rel, "strategy") {
+			continue
+		}
+		info := pk.TypesInfo
+		window := func(e ast.Expr) *ast.SliceExpr {
+			se, ok := ast.Unparen(e).(*ast.SliceExpr)
+			if !ok || se.Slice3 {
+				return nil
+			}
+			if _, isSlice := info.TypeOf(se.X).Underlying().(*types.Slice); !isSlice {
+				return nil
+			}
+			return se
+		}
+		for _, f := range pk.Syntax {
+			if strings.HasSuffix(c.P.Fset.Position(f.Pos()).Filename, "_test.go") {
+				continue
+			}
+			ast.Inspect(f, func(nd ast.Node) bool {
+				var se *ast.SliceExpr
+				what := ""
+				switch x := nd.(type) {
+				case *ast.CallExpr:
+					if x.Ellipsis.IsValid() && len(x.Args) > 0 {
+						if id, isID := x.Fun.(*ast.Ident); isID {
+							if _, isB := info.Uses[id].(*types.Builtin); isB {
+								return true // append copies the elements
+							}
+						}
+						if fn := callee(info, x); fn != nil && fn.Pkg() != nil && strings.HasPrefix(fn.Pkg().Path(), load.ModulePath) {
+							se = window(x.Args[len(x.Args)-1])
+							what = "handed to " + fn.Name() + " as its variadic list"
+						}
+					}
+				case *ast.KeyValueExpr:
+					se = window(x.Value)
+					what = "stored in field " + exprString(x.Key)
+				case *ast.AssignStmt:
+					for i, l := range x.Lhs {
+						if sel, isSel := l.(*ast.SelectorExpr); isSel && i < len(x.Rhs) {
+							if v, isF := info.ObjectOf(sel.Sel).(*types.Var); isF && v.IsField() {
+								if w := window(x.Rhs[i]); w != nil {
+									se, what = w, "stored in field "+sel.Sel.Name
+								}
+							}
+						}
+					}
+				}
+				if se == nil {
+					return true
+				}
+				nw++
+				run.Oblige(false)
+				c.violate("instance-freshness", rel, "window "+exprString(se), se.Pos(), "the slice window "+exprString(se)+" is "+what+": the object's list shares its backing array (and its spare capacity) with whatever else is carved from "+exprString(se.X)+", so appending to one instance's list overwrites an element of another's")
+				return true
+			})
+		}
+	}
+	run.Count("shared_slice_windows", nw)
 	// the expected count on this code base is zero: keep the classifier honest on built-in examples
 	okSample := holdsPointer(types.NewPointer(types.Typ[types.Int]), 0) != "" &&
 		holdsPointer(types.NewSlice(types.NewPointer(types.Typ[types.Int])), 0) != "" &&
